@@ -64,6 +64,26 @@ Theorem C11_lock_then_unlock_returns :
 Proof. exact sp_lock_then_unlock_returns. Qed.
 Print Assumptions C11_lock_then_unlock_returns.
 
+(* A lock (first stake or re-stake of the same client) changes nobody's accrued reward ... *)
+Theorem C11_lock_keeps_accrued_rewards :
+  forall tx cbal sp vs sp' trs id,
+  sp_stake_pool_lock tx cbal sp vs = Some (sp', trs) ->
+  sp_reward_of id (sp_pools sp') = sp_reward_of id (sp_pools sp).
+Proof. exact sp_lock_keeps_accrued_rewards. Qed.
+Print Assumptions C11_lock_keeps_accrued_rewards.
+
+(* ... so lock -> reward (not collected) -> lock again -> unlock pays the whole stake plus the
+   reward accrued before the second lock *)
+Theorem C11_relock_then_unlock_pays_reward :
+  forall tx cbal sp vs sp1 trs1 minter ssc offers sp2 trs2 dp,
+  sp_sorted (sp_pools sp) -> sp_find (tx_client tx) (sp_pools sp) = Some dp ->
+  sp_stake_pool_lock tx cbal sp vs = Some (sp1, trs1) ->
+  sp_unlock minter ssc (tx_client tx) offers sp1 = Some (sp2, trs2) ->
+  trs2 = sp_charge_part minter (tx_client tx) sp1 ++ sp_reward_part minter (tx_client tx) dp ++
+         [{| tr_from := ssc; tr_to := tx_client tx; tr_amount := dp_bal dp + tx_value tx |}].
+Proof. exact sp_relock_then_unlock_pays_reward. Qed.
+Print Assumptions C11_relock_then_unlock_pays_reward.
+
 (* Blobber / validator pools (storagesc Empty): an unlock never leaves less stake than the offers. *)
 Theorem C11_unlock_keeps_offers_covered :
   forall minter ssc client off sp sp' trs,
